@@ -243,6 +243,11 @@ Section Sent.
     apply read_num_spec in Hx as (_ & _ & Hy & _). cbn. now rewrite Hy, IH.
   Qed.
 
+  Lemma nl_facts sep rb : numlist_ok E sep rb = true ->
+    rb <> [] /\ first_not is_float_char sep = true /\ first_not is_float_char rb = true /\
+    diverge space sep = true /\ diverge space rb = true /\ diverge sep rb = true.
+  Proof. intros Hnl. unfold numlist_ok in Hnl. rewrite !andb_true_iff in Hnl. repeat split; try tauto. apply nonempty_ne; tauto. Qed.
+
   Section NumList.
     Variable L : nat.
     Variable n : nat.
@@ -254,9 +259,9 @@ Section Sent.
 
     Local Notation FL fuel acc buf st := (floats_loop F fread E fuel n sep rb acc buf st).
 
-    Lemma nl_facts : rb <> [] /\ first_not is_float_char sep = true /\ first_not is_float_char rb = true /\
+    Lemma nl_facts_ : rb <> [] /\ first_not is_float_char sep = true /\ first_not is_float_char rb = true /\
                      diverge space sep = true /\ diverge space rb = true /\ diverge sep rb = true.
-    Proof. unfold numlist_ok in Hnl. rewrite !andb_true_iff in Hnl. repeat split; try tauto. apply nonempty_ne; tauto. Qed.
+    Proof. exact (nl_facts sep rb Hnl). Qed.
 
     Lemma fl_unfold fuel acc buf st c r : wf L st -> s_rest st = c :: r -> (length acc < n)%nat ->
       FL (S fuel) acc buf st =
@@ -292,7 +297,7 @@ Section Sent.
     Lemma fl_sep1 fuel acc buf st B m v : at_ L st (sep ++ B) m -> fread buf = Some v -> (length acc < n)%nat ->
       FL (S fuel) acc buf st = FL fuel (acc ++ [v]) [] (skip F sep st).
     Proof.
-      intros (Hwf & Hr & Hm) Hv Hacc. destruct nl_facts as (_ & Hfs & _ & Hds & _).
+      intros (Hwf & Hr & Hm) Hv Hacc. destruct nl_facts_ as (_ & Hfs & _ & Hds & _).
       assert (exists c r, sep = c :: r) as (c & r & Hs) by (destruct sep; [congruence | eauto]).
       assert (Hr' : s_rest st = c :: (r ++ B)) by (rewrite Hr, Hs; reflexivity).
       rewrite (fl_unfold fuel acc buf st c (r ++ B) Hwf Hr' Hacc).
@@ -304,7 +309,7 @@ Section Sent.
     Lemma fl_rb1 fuel acc buf st B m : at_ L st (rb ++ B) m -> (length acc < n)%nat ->
       FL (S fuel) acc buf st = match fread buf with Some v => POk (acc ++ [v]) st | None => POk acc st end.
     Proof.
-      intros (Hwf & Hr & Hm) Hacc. destruct nl_facts as (Hrb & _ & Hfr & _ & Hdr & Hdsr).
+      intros (Hwf & Hr & Hm) Hacc. destruct nl_facts_ as (Hrb & _ & Hfr & _ & Hdr & Hdsr).
       assert (exists c r, rb = c :: r) as (c & r & Hs) by (destruct rb; [congruence | eauto]).
       assert (Hr' : s_rest st = c :: (r ++ B)) by (rewrite Hr, Hs; reflexivity).
       rewrite (fl_unfold fuel acc buf st c (r ++ B) Hwf Hr' Hacc).
@@ -349,7 +354,7 @@ Section Sent.
       (length (render_nums_from E sep gaps true i texts ++ sp a1 ++ rb ++ k) < fuel)%nat ->
       exists st', FL fuel acc buf st = POk (acc ++ v :: vs) st' /\ at_ L st' (rb ++ k) m.
     Proof.
-      destruct nl_facts as (Hrb & _).
+      destruct nl_facts_ as (Hrb & _).
       induction texts as [|x texts IH]; intros i vs fuel acc buf st v a1 k m Hat Hv Hvs Hlen Hf.
       - cbn [render_nums_from app] in Hat, Hf. cbn [omap] in Hvs. injection Hvs as <-.
         destruct (fl_spaces a1 fuel acc buf st (rb ++ k) m Hat) as (fuel' & st' & -> & Hat' & Hf'); [lia | exact Hf|].
@@ -378,7 +383,7 @@ Section Sent.
       (length (sp a0 ++ render_nums_from E sep gaps false 0 texts ++ sp a1 ++ rb ++ k) < fuel)%nat ->
       exists st', FL fuel [] [] st = POk vs st' /\ at_ L st' (rb ++ k) m.
     Proof.
-      intros Hat Hvs Hlen Hf. destruct nl_facts as (Hrb & _).
+      intros Hat Hvs Hlen Hf. destruct nl_facts_ as (Hrb & _).
       destruct texts as [|x texts].
       - cbn [render_nums_from app omap] in *. injection Hvs as <-.
         rewrite app_assoc, <- sp_add in Hat, Hf.
@@ -396,5 +401,247 @@ Section Sent.
         eauto.
     Qed.
   End NumList.
+
+  (* ---------------- the five item parsers on a written item ---------------- *)
+  Lemma at_set_mid L st txt m m' : at_ L st txt m -> at_ L (set_mid F st m') txt m'.
+  Proof. intros (Hwf & Hr & Hm). split; [apply wf_set_mid, Hwf | split; [exact Hr | reflexivity]]. Qed.
+
+  Lemma pad_in01 n vs : forallb in01 vs = true -> forallb in01 (pad F fzero n vs) = true.
+  Proof.
+    intros H. unfold pad. rewrite forallb_app, H. cbn [andb].
+    induction (n - length vs)%nat as [|k IH]; cbn; [reflexivity | now rewrite H_zero].
+  Qed.
+
+  (* the spaces after the left bracket, then the number loop *)
+  Lemma parse_nums_ok L n sep rb (Hn : (0 < n)%nat) (Hsep : sep <> []) (Hnl : numlist_ok E sep rb = true) nm vs st k m :
+    at_ L st (sp (nl_sp0 nm) ++ render_nums_from E sep (nl_gaps nm) false 0 (nl_texts nm) ++ sp (nl_sp1 nm) ++ rb ++ k) m ->
+    omap (read_num F fread in01) (nl_texts nm) = Some vs -> (length (nl_texts nm) <= n)%nat ->
+    exists st', parse_floats F fread E n sep rb (skip_spaces F E st) = POk vs st' /\ at_ L st' (rb ++ k) m.
+  Proof.
+    intros Hat Hvs Hlen. destruct (nl_facts sep rb Hnl) as (Hrb & _ & _ & _ & Hdr & _).
+    unfold parse_floats. destruct (nl_texts nm) as [|x texts] eqn:Ht.
+    - cbn [render_nums_from app] in Hat. rewrite app_assoc, <- sp_add in Hat.
+      apply skip_spaces_sp in Hat; [|now apply nsp_div].
+      apply (fl_nums L n sep rb (nl_gaps nm) Hn Hsep Hnl [] vs _ _ 0 0 k m); [exact Hat | exact Hvs | cbn; lia|].
+      destruct Hat as (_ & -> & _). cbn [Sst.sp rep render_nums_from app]. lia.
+    - assert (Hx : exists c r, x = c :: r /\ is_float_char c = true).
+      { cbn [omap] in Hvs. destruct (read_num F fread in01 x) as [y|] eqn:Hx; [|discriminate].
+        apply read_num_spec in Hx as (Hf & _ & _ & Hne). destruct x as [|c r]; [congruence|].
+        inversion Hf; subst. eauto. }
+      destruct Hx as (c & r & -> & Hc).
+      apply skip_spaces_sp in Hat.
+      2:{ cbn [render_nums_from app]. apply (first_not_starts is_float_char); auto using sk_space_float, space_ne. }
+      apply (fl_nums L n sep rb (nl_gaps nm) Hn Hsep Hnl ((c :: r) :: texts) vs _ _ 0 (nl_sp1 nm) k m); [exact Hat | exact Hvs | exact Hlen|].
+      destruct Hat as (_ & -> & _). match goal with |- (length (sp 0 ++ ?X) < _)%nat => change (sp 0 ++ X) with X end. match goal with |- (length ?A < length ?B + _ + _)%nat => change B with A end. lia.
+  Qed.
+
+  Lemma read_nums_spec max nm vs : read_nums F fread in01 max nm = Some vs ->
+    omap (read_num F fread in01) (nl_texts nm) = Some vs /\ (length (nl_texts nm) <= max)%nat.
+  Proof. unfold read_nums. destruct (Nat.leb_spec (length (nl_texts nm)) max); [auto | discriminate]. Qed.
+
+  Lemma consume_budget_ok L st nm b k m :
+    at_ L st (render_budget E nm ++ k) m -> obudget F fread in01 nm = Some b ->
+    exists st', consume_budget F fread fzero in01 E st = POk tt st' /\ at_ L st' k (mid_set_budget F m b).
+  Proof.
+    intros Hat Hb. unfold obudget in Hb. destruct (read_nums F fread in01 3 nm) as [vs|] eqn:Hvs; [|discriminate].
+    apply read_nums_spec in Hvs as (Hvs & Hlen).
+    unfold render_budget, render_nums in Hat. rewrite <- !app_assoc in Hat.
+    unfold consume_budget, skip_and_spaces. apply at_skip in Hat.
+    destruct (parse_nums_ok L 3 _ _ ltac:(lia) bsep_ne sk_budget_list nm vs _ k m Hat Hvs Hlen) as (st2 & -> & Hat2).
+    cbn [pbind]. rewrite (pad_in01 3 vs (omap_read_in01 _ _ Hvs)). cbn [negb]. rewrite Hb.
+    destruct (nl_facts _ _ sk_budget_list) as (Hrb & _ & _ & _ & Hdr & _).
+    assert (Hss : skip_spaces F E st2 = st2) by (eapply skip_spaces_none; [exact Hat2 | now apply nsp_div]).
+    destruct budget_requires_close.
+    - rewrite Hss. destruct Hat2 as (Hwf2 & Hr2 & Hm2).
+      rewrite (st_starts_app_ne L _ _ st2 Hwf2 Hr2 Hrb).
+      eexists. split; [reflexivity|]. cbn [skip step s_mid]. rewrite Hm2.
+      apply at_set_mid with (m := m). apply at_skip. split; [assumption | split; assumption].
+    - unfold skip_after_spaces. rewrite Hss. eexists. split; [reflexivity|].
+      destruct Hat2 as (Hwf2 & Hr2 & Hm2). cbn [skip step s_mid]. rewrite Hm2.
+      apply at_set_mid with (m := m). apply at_skip. split; [assumption | split; assumption].
+  Qed.
+
+  Lemma otruth_spec nm t : otruth F fread in01 nm = Some t ->
+    exists vs, omap (read_num F fread in01) (nl_texts nm) = Some vs /\ (length (nl_texts nm) <= 2)%nat /\ mk_truth F in01 vs = Some t.
+  Proof.
+    unfold otruth. destruct (read_nums F fread in01 2 nm) as [vs|] eqn:Hvs; [|discriminate].
+    apply read_nums_spec in Hvs as (Hvs & Hlen). eauto.
+  Qed.
+
+  Lemma consume_truth_ok L st nm t k m :
+    at_ L st (render_truth E nm ++ k) m -> otruth F fread in01 nm = Some t ->
+    exists st', consume_truth F fread fzero in01 E st = POk tt st' /\ at_ L st' k (mid_set_truth F m t).
+  Proof.
+    intros Hat Ht. apply otruth_spec in Ht as (vs & Hvs & Hlen & Ht).
+    unfold render_truth, render_nums in Hat. rewrite <- !app_assoc in Hat.
+    unfold consume_truth, skip_and_spaces. apply at_skip in Hat.
+    destruct (parse_nums_ok L 2 _ _ ltac:(lia) tsep_ne sk_truth_list nm vs _ k m Hat Hvs Hlen) as (st2 & -> & Hat2).
+    cbn [pbind]. rewrite (pad_in01 2 vs (omap_read_in01 _ _ Hvs)). cbn [negb]. rewrite Ht.
+    destruct (nl_facts _ _ sk_truth_list) as (Hrb & _ & _ & _ & Hdr & _).
+    assert (Hss : skip_spaces F E st2 = st2) by (eapply skip_spaces_none; [exact Hat2 | now apply nsp_div]).
+    unfold skip_after_spaces. rewrite Hss. eexists. split; [reflexivity|].
+    destruct Hat2 as (Hwf2 & Hr2 & Hm2). cbn [skip step s_mid]. rewrite Hm2.
+    apply at_set_mid with (m := m). apply at_skip. split; [assumption | split; assumption].
+  Qed.
+
+  (* `first!` ladders: the arm whose keyword is written is the one taken *)
+  Lemma find_arm_nth {A} (arms : list ((efmt -> str) * A)) : arms_sep E arms = true ->
+    forall i g a L st k, nth_error arms i = Some (g, a) -> wf L st -> s_rest st = g E ++ k -> g E <> [] ->
+                         find_arm F E arms st = Some (g, a).
+  Proof.
+    induction arms as [|[g' a'] arms IH]; intros Hsep i g a L st k Hn Hwf Hr Hne; [destruct i; discriminate|].
+    cbn [arms_sep] in Hsep. apply andb_true_iff in Hsep as [Hd Hsep]. cbn [find_arm].
+    destruct i as [|i]; cbn [nth_error] in Hn.
+    - injection Hn as -> ->. now rewrite (st_starts_app_ne L _ _ st Hwf Hr Hne).
+    - rewrite forallb_forall in Hd. specialize (Hd _ (nth_error_In _ _ Hn)). cbn [fst] in Hd.
+      rewrite st_starts_false by (rewrite Hr; now apply diverge_starts).
+      eapply IH; eauto.
+  Qed.
+
+  Lemma punct_arm_spec a p : opunct a = Some p ->
+    exists g sk, nth_error punct_arms a = Some (g, sk, p) /\ punct_kw E a = g E /\ sk E = g E /\ g E <> [].
+  Proof.
+    unfold opunct, punct_kw. destruct (nth_error punct_arms a) as [[[g sk] p']|] eqn:Hn; [|discriminate].
+    intros H; injection H as ->. exists g, sk. apply nth_error_In in Hn.
+    pose proof sk_punct_same as Hs. pose proof punct_ne as Hne. rewrite forallb_forall in Hs, Hne.
+    specialize (Hs _ Hn). specialize (Hne _ Hn). cbn [fst snd] in Hs, Hne. apply str_eqb_eq in Hs.
+    repeat split; auto. rewrite Hs. now apply nonempty_ne.
+  Qed.
+
+  Lemma consume_punct_ok L st a p k m :
+    at_ L st (punct_kw E a ++ k) m -> opunct a = Some p ->
+    exists st', consume_punctuation F E st = POk tt st' /\ at_ L st' k (mid_set_punct F m p).
+  Proof.
+    intros Hat Hp. destruct (punct_arm_spec a p Hp) as (g & sk & Hn & Hkw & Hsk & Hne).
+    rewrite Hkw in Hat. destruct Hat as (Hwf & Hr & Hm).
+    unfold consume_punctuation.
+    rewrite (find_arm_nth _ sk_punct_sep a g (sk, p) L st k); auto.
+    2:{ apply (map_nth_error (fun x => (fst (fst x), (snd (fst x), snd x)))) in Hn. exact Hn. }
+    eexists. split; [reflexivity|]. unfold skip. rewrite Hsk. cbn [step s_mid]. rewrite Hm.
+    apply at_set_mid with (m := m). apply (at_skip L st (g E) k m). split; [assumption | split; assumption].
+  Qed.
+
+  Lemma stamp_arm_spec a kd : stamp_kind a = Some kd ->
+    exists g sk, nth_error stamp_arms a = Some (g, sk, kd) /\ stamp_marker E a = g E /\ sk E = g E /\ g E <> [].
+  Proof.
+    unfold stamp_kind, stamp_marker. destruct (nth_error stamp_arms a) as [[[g sk] kd']|] eqn:Hn; [|discriminate].
+    intros H; injection H as ->. exists g, sk. apply nth_error_In in Hn.
+    pose proof sk_stamp_same as Hs. pose proof stamp_ne as Hne. rewrite forallb_forall in Hs, Hne.
+    specialize (Hs _ Hn). specialize (Hne _ Hn). cbn [fst snd] in Hs, Hne. apply str_eqb_eq in Hs.
+    repeat split; auto. rewrite Hs. now apply nonempty_ne.
+  Qed.
+
+  Lemma int_scan_app txt R : Forall (fun c => is_int_char c = true) txt -> first_not is_int_char R = true ->
+    int_scan (txt ++ R) = txt.
+  Proof.
+    intros Ht HR. induction Ht as [|c txt Hc Ht IH]; cbn [app int_scan].
+    - destruct R as [|c R]; [reflexivity|]. cbn [first_not] in HR. apply negb_true_iff in HR. cbn [int_scan]. now rewrite HR.
+    - now rewrite Hc, IH.
+  Qed.
+
+  (* the right stamp bracket: with an empty one (LaTeX, Han) the spaces that follow are swallowed too *)
+  Lemma stamp_finish L st3 sp2 g B m' :
+    at_ L st3 (sp sp2 ++ sentence_stamp_brackets_1 E ++ sp g ++ B) m' -> nsp B ->
+    exists j, at_ L (skip_after_spaces F E (sentence_stamp_brackets_1 E) st3) (sp j ++ B) m'.
+  Proof.
+    intros Hat HB. pose proof sk_stamp_rb as Hrb. unfold skip_after_spaces.
+    destruct (sentence_stamp_brackets_1 E) as [|c r] eqn:Hb.
+    - cbn [app] in Hat. rewrite app_assoc, <- sp_add in Hat. apply skip_spaces_sp in Hat; [|exact HB].
+      exists 0%nat. apply (at_skip L _ [] B m' Hat).
+    - apply andb_true_iff in Hrb as [Hd _]. apply skip_spaces_sp in Hat; [|now apply nsp_div].
+      exists g. now apply at_skip.
+  Qed.
+
+  Lemma consume_stamp_ok L st x sv g B m :
+    at_ L st (render_stamp E x ++ sp g ++ B) m -> nsp B ->
+    (sentence_stamp_brackets_1 E = [] -> first_not is_int_char B = true) ->
+    ostamp x = Some sv ->
+    exists j st', consume_stamp F E st = POk tt st' /\ at_ L st' (sp j ++ B) (mid_set_stamp F m sv).
+  Proof.
+    intros Hat HB HBint Hsv. unfold ostamp in Hsv.
+    destruct (stamp_kind (ss_arm x)) as [kd|] eqn:Hk; [|discriminate].
+    destruct (stamp_arm_spec _ _ Hk) as (g0 & sk & Hn & Hmk & Hsk & Hne).
+    unfold render_stamp in Hat. rewrite Hk, Hmk in Hat. rewrite <- !app_assoc in Hat.
+    unfold consume_stamp, skip_and_spaces. apply at_skip in Hat.
+    apply skip_spaces_sp in Hat.
+    2:{ apply nsp_div. rewrite <- Hmk. exact (all_arms_nth _ _ _ _ sk_sp_marker Hn). }
+    set (st1 := skip_spaces F E (skip F (sentence_stamp_brackets_0 E) st)) in *.
+    destruct Hat as (Hwf1 & Hr1 & Hm1).
+    pose proof (map_nth_error (fun x => (fst (fst x), (snd (fst x), snd x))) _ _ Hn) as Hn'. cbn [fst snd] in Hn'.
+    rewrite (find_arm_nth _ sk_stamp_sep (ss_arm x) g0 (sk, kd) L st1 _ Hn' Hwf1 Hr1 Hne).
+    pose proof (at_skip L st1 (g0 E) _ m (conj Hwf1 (conj Hr1 Hm1))) as Hat2.
+    unfold skip in Hat2 |- *. rewrite Hsk.
+    cbv zeta.
+    assert (Hfin : forall s st3, at_ L st3 (sp (ss_sp2 x) ++ sentence_stamp_brackets_1 E ++ sp g ++ B) m ->
+              exists j st', POk tt (skip_after_spaces F E (sentence_stamp_brackets_1 E) (set_mid F st3 (mid_set_stamp F (s_mid st3) s))) = POk tt st' /\
+                            at_ L st' (sp j ++ B) (mid_set_stamp F m s)).
+    { intros s st3 Hat3. assert (Hm3 : s_mid st3 = m) by apply Hat3. rewrite Hm3.
+      apply (at_set_mid L st3 _ m (mid_set_stamp F m s)) in Hat3.
+      destruct (stamp_finish L _ _ g B _ Hat3 HB) as (j & Hj). eauto. }
+    destruct kd.
+    - (* fixed *)
+      destruct (nonempty (ss_int x) && forallb is_int_char (ss_int x)) eqn:Hi; [|discriminate].
+      apply andb_true_iff in Hi as [Hine Hich]. apply nonempty_ne in Hine. apply forallb_Forall_iff in Hich.
+      destruct (read_isize (ss_int x)) as [z|] eqn:Hz; [|discriminate]. injection Hsv as <-.
+      rewrite sk_fixed_spaces. rewrite <- !app_assoc in Hat2.
+      assert (Hic : exists c r, ss_int x = c :: r /\ is_int_char c = true).
+      { destruct (ss_int x) as [|c r]; [congruence|]. inversion Hich; subst. eauto. }
+      destruct Hic as (c & r & Hcr & Hc).
+      apply skip_spaces_sp in Hat2.
+      2:{ rewrite Hcr. cbn [app]. apply (first_not_starts is_int_char); auto using sk_space_int, space_ne. }
+      set (st2 := skip_spaces F E (step F (length (g0 E)) st1)) in *.
+      destruct Hat2 as (Hwf2 & Hr2 & Hm2).
+      assert (Hstop : first_not is_int_char (sp (ss_sp2 x) ++ sentence_stamp_brackets_1 E ++ sp g ++ B) = true).
+      { pose proof sk_stamp_rb as Hrb.
+        destruct (ss_sp2 x) as [|s2]; [|rewrite sp_S, <- app_assoc; apply first_not_app; auto using sk_space_int, space_ne].
+        cbn [Sst.sp rep app]. destruct (sentence_stamp_brackets_1 E) as [|c' r'] eqn:Hb.
+        - cbn [app]. destruct g as [|g']; [cbn [Sst.sp rep app]; now apply HBint|].
+          rewrite sp_S, <- app_assoc. apply first_not_app; auto using sk_space_int, space_ne.
+        - apply andb_true_iff in Hrb as [_ Hrb]. cbn [app first_not] in *. exact Hrb. }
+      unfold parse_isize. rewrite (can_consume_ne L st2 Hwf2) by (rewrite Hr2, Hcr; discriminate).
+      rewrite Hr2, (int_scan_app _ _ Hich Hstop).
+      destruct (ss_int x) as [|c0 r0] eqn:Hint; [congruence|]. rewrite Hz. cbn [pbind].
+      apply Hfin. split; [apply wf_step, Hwf2 | split; [rewrite <- Hint in *; now apply rest_step | exact Hm2]].
+    - cbn [app] in Hat2. injection Hsv as <-. now apply Hfin.
+    - cbn [app] in Hat2. injection Hsv as <-. now apply Hfin.
+    - cbn [app] in Hat2. injection Hsv as <-. now apply Hfin.
+  Qed.
+
+  (* ---- the term: the term-level theorem is a hypothesis of this file ---- *)
+  Lemma items_depth (r : sterm -> str) gaps items :
+    Forall (fun x => (sdepth x <= S (length (r x)))%nat) items ->
+    forall lead i, (fold_right (fun x acc => Nat.max (sdepth x) acc) O items <= S (length (render_items E r gaps lead i items)))%nat.
+  Proof.
+    induction 1 as [|x items Hx _ IH]; intros lead i; cbn [fold_right render_items]; [lia|].
+    specialize (IH true (S i)). rewrite !app_length. lia.
+  Qed.
+
+  Lemma sdepth_render t : (sdepth t <= S (length (render E t)))%nat.
+  Proof.
+    pose proof sk_total as Hok.
+    induction t as [arm name|ext sp0 gaps items sp1 IH|arm sp0 gaps items sp1 IH|arm sp0 sp1 sp2 sp3 s p IHs IHp] using sterm_ind';
+      cbn [sdepth render].
+    - lia.
+    - pose proof (items_depth (render E) gaps items IH false 0%nat) as H. rewrite !app_length.
+      assert (0 < length (set_lb E ext))%nat; [|lia].
+      unfold set_lb. destruct ext; [apply (ok_xb0 F fzero in01 E Hok) | apply (ok_ib0 F fzero in01 E Hok)].
+    - pose proof (items_depth (render E) gaps items IH true 0%nat) as H. rewrite !app_length.
+      pose proof (ok_cb0 F fzero in01 E Hok). lia.
+    - rewrite !app_length. pose proof (ok_sb0 F fzero in01 E Hok). lia.
+  Qed.
+
+  Variable unamb : sterm -> str -> bool.
+  Hypothesis Hterm : TermParses F is_alnum E unamb.
+
+  Lemma consume_term_ok L st t v k m :
+    at_ L st (render E t ++ k) m -> odesugar t = Some v -> unamb t k = true ->
+    exists st', consume_term F is_alnum E st = POk tt st' /\ at_ L st' k (mid_set_term F m v).
+  Proof.
+    intros (Hwf & Hr & Hm) Hv Hu. unfold consume_term, parse_term.
+    rewrite (Hterm t v k L st (term_fuel F st) Hv Hu Hwf Hr).
+    2:{ unfold term_fuel. rewrite Hr, app_length. pose proof (sdepth_render t). lia. }
+    cbn [pbind]. eexists. split; [reflexivity|]. cbn [step s_mid]. rewrite Hm.
+    apply at_set_mid with (m := m). split; [apply wf_step, Hwf | split; [now apply rest_step | exact Hm]].
+  Qed.
 (*MARK*)
 End Sent.
